@@ -106,6 +106,8 @@ Step_C02 ==
     ELSE IF e.name = "ExpireBatch" THEN
         /\ Issued = {}
         /\ \A r \in Settled : r[1] = e.id
+        \* the time-out path settles a request when its own expiry block ends, not earlier or later
+        /\ \A r \in Settled : r \in DOMAIN req /\ req[r].exp = height
         /\ earned' = earned /\ oearned' = oearned
         /\ bal'[TAX] = bal[TAX]
         /\ bal'[REQ] = bal[REQ] - SumFees(req, Settled)
@@ -318,6 +320,10 @@ Step_C08 ==
                    /\ req[r].prov = e.signer
                    /\ CanRespond(e.signer, r, e.kind))
     /\ (e.name # "Respond") => (DOMAIN resp') \subseteq (DOMAIN resp)
+    \* a request stays pending until it is answered or its own expiry block ends
+    /\ \A r \in Settled :
+          \/ (e.name = "Respond" /\ e.ok /\ r = Rid(e))
+          \/ (e.name = "ExpireBatch" /\ r \in DOMAIN req /\ req[r].exp = height)
 
 -----------------------------------------------------------------------------
 (* C09  request contexts follow their lifecycle state machine *)
